@@ -59,7 +59,7 @@ func VerifH_C20_antispamSeq() {
 	a := verifNew(o)
 	now := time.Unix(1700000000, 0)
 	names := []string{"a", "b"}
-	since := map[string]int{}   // events counted for the source since the previous maintenance round
+	since := map[string]int{}    // events counted for the source since the previous maintenance round
 	wasSpam := map[string]bool{} // result of the source's previous event
 	for step := 0; step < K; step++ {
 		// one of: maintenance | a now | a after a long pause | a flagged new | b now | b flagged new
